@@ -585,8 +585,12 @@ impl HashColumn {
 		col: ColId,
 		reindexing: &mut VecDeque<ReindexEntry>,
 	) -> Result<RefCountTable> {
+		#[cfg(not(parity_db_verif))]
+		let first_bits = MIN_REF_COUNT_BITS;
+		#[cfg(parity_db_verif)]
+		let first_bits = crate::verif::first_ref_count_bits();
 		let mut top = None;
-		for bits in (MIN_REF_COUNT_BITS..65).rev() {
+		for bits in (first_bits.min(MIN_REF_COUNT_BITS)..65).rev() {
 			let id = RefCountTableId::new(col, bits);
 			if let Some(table) = RefCountTable::open_existing(path, id)? {
 				if top.is_none() {
@@ -600,7 +604,7 @@ impl HashColumn {
 		}
 		let table = match top {
 			Some(table) => table,
-			None => RefCountTable::create_new(path, RefCountTableId::new(col, MIN_REF_COUNT_BITS)),
+			None => RefCountTable::create_new(path, RefCountTableId::new(col, first_bits)),
 		};
 		Ok(table)
 	}
